@@ -23,6 +23,14 @@ def register(name, factory):
                                      as (key, message) tuples)
          canon(world) -> hashable canonical state
          probe(world) -> None      (optional: pure observations, checked)
+         future(world) -> hashable (optional: a *destructive* bounded look
+                                    into the future, run on a throw-away
+                                    rebuild of the state.  It is part of the
+                                    state identity - two histories are merged
+                                    only if the structural canon and this
+                                    behavioural fingerprint agree - and when
+                                    apply() set world.expect_noop it must equal
+                                    the parent state's fingerprint)
          close(world)
     """
     _MODELS[name] = factory
@@ -35,16 +43,35 @@ def _build(model, hist):
     return w
 
 
+def _future(model, hist):
+    w = _build(model, hist)
+    try:
+        return model.future(w)
+    finally:
+        model.close(w)
+
+
+def _noop_violation(model, w, op, fp, parent_fp):
+    if getattr(w, 'expect_noop', False) and fp != parent_fp:
+        return [(getattr(model, 'NOOP_KEY', 'noop-side-effect'),
+                 f'{op}: must be ignored without side effect, but what '
+                 f'follows differs: without it {parent_fp!r}, after it '
+                 f'{fp!r}')]
+    return []
+
+
 def _expand(args):
     name, params, hists = args
     try:
         model = _MODELS[name](**params)
+        has_future = hasattr(model, 'future')
         out = []
         for hist in hists:
             hist = list(hist)
             w = _build(model, hist)
             ops = model.ops(w)
             model.close(w)
+            parent_fp = _future(model, hist) if has_future else None
             for op in ops:
                 w = _build(model, hist)
                 pre = len(w.violations)
@@ -63,6 +90,10 @@ def _expand(args):
                     key = model.canon(w)
                 obs = getattr(w, 'obs_key', None)
                 model.close(w)
+                if has_future:
+                    fp = _future(model, hist + [op])
+                    key = (key, fp)
+                    viols += _noop_violation(model, w, op, fp, parent_fp)
                 out.append((tuple(hist) + (op,), key, viols, obs))
         return ('ok', out)
     except Exception:
@@ -101,6 +132,8 @@ def explore(name, params, result, max_depth, workers=None, max_states=None,
     model = _MODELS[name](**params)
     w0 = model.initial()
     k0 = model.canon(w0)
+    if hasattr(model, 'future'):
+        k0 = (k0, _future(model, []))
     if hasattr(model, 'probe'):
         model.probe(w0)
         for key, msg in w0.violations:
@@ -162,4 +195,8 @@ def replay(name, params, hist):
         model.probe(w)
     v = list(w.violations)
     model.close(w)
+    if hasattr(model, 'future') and hist:
+        hist = list(hist)
+        v += _noop_violation(model, w, hist[-1], _future(model, hist),
+                             _future(model, hist[:-1]))
     return v
